@@ -2,6 +2,7 @@ import TxVerif.Props.C12
 import TxVerif.Tie.PQ
 import TxVerif.Props.C12Writer
 import TxVerif.Props.PQQueueRefine
+import TxVerif.Tie.Fixes
 open TxVerif
 #print axioms ack_space_bound
 #print axioms ack_keeps_unacked
@@ -36,3 +37,5 @@ open TxVerif
 #print axioms queue_reach_example
 #print axioms ack_plan_C
 #print axioms queue_reader_page_live
+#print axioms Tie.pq_fix_unassignPages
+#print axioms Tie.fix_rollbackChanges
